@@ -338,6 +338,30 @@ theorem source_cached_accessors_eq_model {faces : Faces} (nv : Nat) (so : Bool) 
   · show mt.1 = _; rw [h2]
   · show mt.2 = _; rw [h2]
 
+/-- **bridge** `PolyLine._Connectivity._compute_connectivity` (the loop over the edges that fills the neighbour sets `_adjV2V`, then the
+recast of every set as a list): on a built mesh whose face vertices are `< nv`, for every vertex id the set has exactly the elements of
+the model's `neighbours` (= the vertices joined to it by an edge), each once -/
+theorem source_polyline_compute_connectivity_eq_model {faces : Faces} (nv : Nat) (so : Bool) (hR : ∀ F ∈ faces, ∀ v ∈ F, v < nv)
+    (v : Nat) (hv : v < nv) :
+    (∀ w, w ∈ v2cnGet (Mouette.Generated.C01Acc.polyComputeConnectivity (build nv faces so)) v ↔ w ∈ neighbours (build nv faces so) v) ∧
+    (v2cnGet (Mouette.Generated.C01Acc.polyComputeConnectivity (build nv faces so)) v).Nodup := by
+  apply polyComputeConnectivity_bridge _ _ v hv
+  intro e he
+  have he' : e ∈ edgesOf faces := he
+  obtain ⟨f, i, u, w, ⟨hf, hi, hu, hw⟩, rfl⟩ := mem_edgesOf.mp he'
+  have hF : fa faces f ∈ faces := by
+    have : fa faces f = faces[f] := by simp [fa, List.getD, hf]
+    rw [this]; exact List.getElem_mem hf
+  have hi' : (i + 1) % (fa faces f).length < (fa faces f).length := Nat.mod_lt _ (by omega)
+  have hu' : u < nv := by rw [← hu, getD_eq_getElem hi]; exact hR _ hF _ (List.getElem_mem hi)
+  have hw' : w < nv := by rw [← hw, getD_eq_getElem hi']; exact hR _ hF _ (List.getElem_mem hi')
+  show (key2 u w).1 < nv ∧ (key2 u w).2 < nv
+  unfold key2
+  split <;> exact ⟨by assumption, by assumption⟩
+
+example : Mouette.Generated.C01Acc.polyComputeConnectivity (build 4 [[0, 1, 2], [2, 1, 3]] true) = [[1, 2], [0, 2, 3], [1, 0, 3], [1, 2]] := by
+  decide +kernel
+
 end acc2
 
 /-! non-vacuity: the translated functions run on two triangles sharing the edge 1-2 -/
